@@ -44,7 +44,8 @@ def strategy(tier):
     rel = st.sampled_from(["compat", "compat", "compat", "identical", "empty", "geom", "hash", "foreign"])
     common = {"rel": rel, "hash": gen.hash_name_st(), "hash2": gen.hash_name_st(), "pool": gen.pool_st(2, 10),
               "sa": so.stream_st(False), "sb": so.stream_st(False), "foreign": st.integers(0, 5),
-              "sx": so.stream_st(False, max_len=5), "derive": st.sampled_from([None, None, "ia", "ua", "ib", "ub"])}
+              "sx": so.stream_st(False, max_len=5), "derive": st.sampled_from([None, None, "ia", "ua", "ib", "ub"]),
+              "round2": st.sampled_from([None, None, "a", "b"])}
     bloom = st.fixed_dictionaries(dict(common, t=st.just("bloom"), geom=geom, geom2=geom,
                                        ka=st.sampled_from(["bloom", "ondisk"]), kb=st.sampled_from(["bloom", "ondisk"])))
     cb = st.fixed_dictionaries(dict(common, t=st.just("cbloom"), geom=geom, geom2=geom))
@@ -188,6 +189,31 @@ def run_case(case, ctx):
                     JS = ctx.call(noexc, A.jaccard_index, A)
                     ctx.check("C13.jaccard", JS == 1.0, f"jaccard_index of a filter with itself is {JS!r}")
                     ctx.nt(inter > 0 and (pa > inter or pb > inter))
+                    ctx.check("C13.unmodified", bytes(A) == ba and bytes(B) == bb, "a set operation modified an operand")
+                    if case.get("round2") and hasattr(B, "clear"):
+                        # second round on the SAME objects: clear one operand, add a few keys, and ask again - whatever an operand
+                        # may have cached during the first round is stale now
+                        tgt, tk = (B, kb) if case["round2"] == "b" else (A, ka)
+                        ctx.call(noexc, tgt.clear)
+                        rx2, _ = so.resolve(case.get("sx", []), len(pool))
+                        so.feed(tgt, tk, pool, [[k, abs(n)] for k, n in rx2])
+                        ba, bb = bytes(A), bytes(B)
+                        ca, cb_ = so.cells(A, ka), so.cells(B, kb)
+                        inter, union, pa, pb = _popcounts(ca, cb_, counting)
+                        I2 = ctx.call(noexc, A.intersection, B)
+                        J3 = ctx.call(noexc, A.jaccard_index, B)
+                        J4 = ctx.call(noexc, B.jaccard_index, A)
+                        ctx.check("C13.incompatible", I2 is not None and J3 is not None, "second round: compatible operands gave None")
+                        ci = so.cells(I2, "counting" if counting else "bloom")
+                        if counting:
+                            nz = [ci[i:i + 4] != b"\0\0\0\0" for i in range(0, len(ci), 4)]
+                            want2 = [ca[i:i + 4] != b"\0\0\0\0" and cb_[i:i + 4] != b"\0\0\0\0" for i in range(0, len(ca), 4)]
+                            ctx.check("C13.intersection", nz == want2, "second round: counting intersection wrong after clear()")
+                        else:
+                            ctx.check("C13.intersection", ci == bytes(x & y for x, y in zip(ca, cb_)), "second round: intersection is not the AND of the operands after clear()")
+                        wantj = 1.0 if union == 0 else inter / union
+                        ctx.check("C13.jaccard", abs(J3 - wantj) <= 1e-12 and J3 == J4, lambda: f"second round: jaccard_index {J3!r}/{J4!r} != {inter}/{union}")
+                        ctx.feat("second_round_" + case["round2"])
             ctx.check("C13.unmodified", bytes(A) == ba and bytes(B) == bb, "a set operation modified an operand")
             ctx.feat("%s_%s_%s_%s" % (t, rel, ka, kb))
         ctx.feat("hash_" + h1)
